@@ -28,6 +28,7 @@ func Begin(fsstate *FsState) *FsTxn {
 			fsstate.Ialloc),
 		inodes: make(map[common.Inum]*inode.Inode),
 	}
+	verifEvent("begin", op, 0)
 	return op
 }
 
@@ -75,11 +76,14 @@ func (op *FsTxn) AllocInode(kind nfstypes.Ftype3) *inode.Inode {
 func (op *FsTxn) ReleaseInode(ip *inode.Inode) {
 	util.DPrintf(1, "ReleaseInode %v\n", ip)
 	op.doneInode(ip)
+	verifEvent("rel", op, ip.Inum)
 	op.Fs.Lockmap.Release(ip.Inum)
 }
 
 func (op *FsTxn) LockInode(inum common.Inum) *cache.Cslot {
+	verifEvent("acq-req", op, inum)
 	op.Fs.Lockmap.Acquire(inum)
+	verifEvent("acq", op, inum)
 	cslot := op.Fs.Icache.LookupSlot(uint64(inum))
 	if cslot == nil {
 		panic("GetInodeLocked")
